@@ -253,6 +253,8 @@ def build(rng, family):
         M.shuffle_options(deck, rng)
     if rng.random() < 0.3:
         M.vary_largest_surface(deck, rng)
+    if rng.random() < 0.15:
+        M.add_unrelated_cards(deck, rng)
     roll = rng.random()
     if roll < 0.3:
         # importances other than 1: any positive value keeps the cell
